@@ -651,10 +651,12 @@ def _shape(dom, a):
         return c.shape
     if isinstance(c, MatTerm) and c.kind in ("stack", "diffstack"):
         return (mat_rows(dom, c), wrap(uf("cols", Vec, I)(mat_term(dom, c))))
-    kind = dom.run.ghost.get("ndim", {}).get(a.ref, 1)
+    kind = dom.run.ghost.get("ndim", {}).get(a.ref)
     if kind == 2:
         return (wrap(uf("rows", Vec, I)(c)), wrap(uf("cols", Vec, I)(c)))
-    return (_size(dom, a),)
+    if kind == 1:
+        return (_size(dom, a),)
+    return ShapeV(c if z3.is_expr(c) else vec_of(dom, a))
 
 
 @model("arrattr:dtype")
@@ -1159,6 +1161,29 @@ class TaskPrefix(ModelValue):
 
     def __init__(self, v, k):
         self.v, self.k = v, k
+
+
+class ShapeV(ModelValue):
+    """shape of an opaque array whose rank is not known: indexable by a concrete axis number"""
+    __slots__ = ("term",)
+
+    def __init__(self, term):
+        self.term = term
+
+
+@model("shape:getitem")
+def _shape_getitem(dom, args, kw):
+    sh, idx = args
+    if not isinstance(idx, int):
+        raise Unsupported("symbolic axis number")
+    if idx == 0:
+        t = uf("size", Vec, I)(sh.term)      # for a vector, shape[0] is its size
+        t0 = uf("dim0", Vec, I)(sh.term)
+        dom.run.assume(t0 >= 0)
+        return wrap(t0)
+    t = uf("dim%d" % idx, Vec, I)(sh.term)
+    dom.run.assume(t >= 0)
+    return wrap(t)
 
 
 TASK_CANON = {0: b"FG", 1: b"CONVERGENCE", 2: b"WARNING", 3: b"ERROR", 4: b"START"}
